@@ -15,6 +15,9 @@ CONSTANTS
   AllowCrash = FALSE
   FixJournalNoPS = TRUE
   FixModeOnOpen = TRUE
+  AllowFreeReuse = FALSE
+  AllowFromWal = FALSE
+  FixModeSwitch = TRUE
   AllowDropDB = FALSE
   AllowRetain = FALSE
   Emit = "idle"
